@@ -264,6 +264,7 @@ pub struct FdtEngine {
     // supersede oracle: (time of last poll, max poll gap since the latest publication, latest publication)
     pub last_poll: Option<u64>,
     pub sup_gap: u64,
+    pub sup_ref: Option<u64>,
     pub sup_reported: bool,
     pub latest_pub: Option<(u64, u64)>, // (publish time µs, expiry µs) of the latest publication seen (explicit/auto)
     pub stats_pubs: u64,
@@ -315,6 +316,7 @@ impl FdtEngine {
             dead: false,
             last_poll: None,
             sup_gap: 0,
+            sup_ref: None,
             sup_reported: false,
             latest_pub: None,
             stats_pubs: 0,
@@ -335,6 +337,7 @@ impl FdtEngine {
         self.dead = false;
         self.last_poll = None;
         self.sup_gap = 0;
+        self.sup_ref = None;
         self.sup_reported = false;
         self.latest_pub = None;
     }
@@ -354,6 +357,7 @@ impl FdtEngine {
         let expiry = (time / 1_000_000 + dur / 1_000_000) * 1_000_000;
         self.latest_pub = Some((time, expiry));
         self.sup_gap = 0;
+        self.sup_ref = Some(time);
         self.sup_reported = false;
         self.stats_pubs += 1;
     }
@@ -546,6 +550,7 @@ impl FdtEngine {
         let ev_h: Vec<String> = evs.iter().map(|(st, t)| format!("{}{}", if *st { "s" } else { "e" }, t)).collect();
         // classify
         let mut fdt_first: Option<u32> = None;
+        let mut fdt_version: u32 = 0;
         let mut fdt_pkt = false;
         if let Some(p) = &pkt {
             if let Ok(a) = flute::core::alc::parse_alc_pkt(p) {
@@ -555,6 +560,7 @@ impl FdtEngine {
                         if let Ok(pid) = flute::core::alc::parse_payload_id(&a, oti) {
                             if pid.sbn == 0 && pid.esi == 0 {
                                 fdt_first = Some(fi.fdt_instance_id);
+                                fdt_version = fi.version;
                             }
                         }
                     }
@@ -606,10 +612,12 @@ impl FdtEngine {
         let snap_after = self.shadow_listed();
         // supersede oracle (evaluated at polls, before a republication of this very call is accounted)
         if polled {
-            if let Some(lp) = self.last_poll {
-                self.sup_gap = self.sup_gap.max(now.saturating_sub(lp));
+            // gap to the previous poll, or to the latest publication when no poll came after it
+            if let Some(r) = self.sup_ref {
+                self.sup_gap = self.sup_gap.max(now.saturating_sub(r));
             }
             self.check_supersede(now, o);
+            self.sup_ref = Some(now);
             self.last_poll = Some(now);
         }
         let mut obs = "ok".to_string();
@@ -635,7 +643,7 @@ impl FdtEngine {
                     o.fail("id-reused", &format!("instance id {} reused within the last 2^20-1 publications", id));
                 }
                 self.insts.push(Inst { id, exp, pkts: Vec::new(), xml: None, iline: None });
-                obs = format!("ok pop {}", id);
+                obs = format!("ok pop {}v{}", id, fdt_version);
             }
             self.last_tr_id = Some(id);
         }
@@ -658,10 +666,6 @@ impl FdtEngine {
             None => return,
         };
         if self.sup_reported || now < expiry || self.sup_gap > 1_000_000 {
-            return;
-        }
-        // polled at least every second since the publication, and the first poll after it came within 1 s
-        if self.last_poll.map(|lp| lp < pt).unwrap_or(true) && now - pt > 1_000_000 {
             return;
         }
         self.sup_reported = true;
